@@ -764,7 +764,7 @@ class Rule(MethodWIGM):
                     surplus = c.vote - E.quota
 
                     for b in (b for b in E.ballots if b.topRank == c.cid):
-                        b.weight = (b.weight * surplus) / c.vote
+                        b.weight = V.muldiv(b.weight, surplus, c.vote, round='down')    # (g)(2): truncated once
                         transfer(b)
                     c.vote = E.quota
                     E.logAction('transfer', "Surplus transferred: %s (%s)" % (c, surplus))
